@@ -459,8 +459,8 @@ def main(tier, seed, t0):
         if expect and not any(common.sig_matches(expect, s) for s, _ in out.sigs()):
             kind, entry = common.classify(ID, tuple(expect))
             if kind == "known":
-                col.error("%s no longer shows the open known finding %s (fixed? then switch its entry to 'fixed')" % (
-                    os.path.basename(path), expect))
+                col.notes.append("%s no longer shows the open known finding %s (repaired? then its entry can be "
+                                 "switched to 'fixed')" % (os.path.basename(path), expect))
     if col.errors:
         return common.finish(ID, tier, seed, col, t0, RULE, ASSUMPTIONS)
     n = common.NCPU
